@@ -50,7 +50,7 @@ THEOREMS = {
                                       "Tr.Load.getNodes_enc", "Tr.Load.schedLoop_enc", "Tr.Load.connLoop_enc", "Tr.Load.nv_enc", "Tr.Load.nv_loaded", "Tr.C16_connections", "Tr.C16_reverse_footpaths", "Tr.C16_sorted_lists", "Tr.C16_trip_lists", "Tr.C16_scenario_set", "Tr.C16_comparators"]),
     "C13": ("TrVerif.Props.C13", ["Tr.C13_history_independent", "Tr.C13_cache_kind_irrelevant", "Tr.C13_structure"]),
     "C14": ("TrVerif.Props.C14", ["Tr.C14_interleavings", "Tr.C14_progress", "Tr.C14_structure"]),
-    "C15": ("TrVerif.Props.C15", ["Tr.C15_answers", "Tr.C15_all", "Tr.C15_schedules", "Tr.C15_old_state_irrelevant", "Tr.C15_status", "Tr.C15_structure", "Tr.C15_order"]),
+    "C15": ("TrVerif.Props.C15All", ["Tr.Load.C15_refresh_all_record_level", "Tr.Load.C15_refresh_schedules_record_level", "Tr.Load.C16_roundtrip", "Tr.C15_answers", "Tr.C15_all", "Tr.C15_schedules", "Tr.C15_old_state_irrelevant", "Tr.C15_status", "Tr.C15_structure", "Tr.C15_order"]),
     "C17": ("TrVerif.Props.C17All", ["Tr.Load.C17_no_ub", "Tr.Load.C17_conn_forward", "Tr.Load.C17_foot_nonneg", "Tr.Load.C17_missing_not_ready", "Tr.Load.C17_ready_all_nonempty",
                                       "Tr.Load.C17_guard_needed", "Tr.Load.C17_guard_rejects", "Tr.Load.C17_validation_source", "Tr.Load.connLoop_val", "Tr.C17_ready_iff", "Tr.C17_names_empty", "Tr.C17_missing_file_not_ready", "Tr.C17_every_request_data_error", "Tr.C17_ready_serves", "Tr.C17_codes", "Tr.C17_tables_cover", "Tr.C17_structure"]),
     "C18": ("TrVerif.Props.C18All", ["Tr.Par.C18_defect_present", "Tr.Par.C18_query_error_documented", "Tr.Par.C18_not_ready_data_error", "Tr.Par.C18_calc_meets_contract",
@@ -201,9 +201,12 @@ _reg("C15", "PROOF (over the refresh model): Tr.C15_answers - after /updateCache
      "(data, scenario cache, data status) equals the state of a server newly started on the files now on disk, whatever was in memory before (old trips, cache entries of scenarios "
      "queried before, old status); hence every later answer after every later history coincides. Hypotheses = the property's: the refresh completes, no request in flight, files of other "
      "kinds unchanged for a partial refresh. Tr.C15_structure / C15_order: regenerated source facts (both update functions clear the cache before re-reading, clear empties both cache kinds, "
-     "status recomputed, call order). The loaders are assumed faithful (C16). Tie: in-process refresh histories (TransitData::update* of the harness vs the model, and vs a fresh TransitData) "
-     "and the real ASan+UBSan binary refreshed over HTTP vs a freshly started one vs the Lean calculation model. Use of freed memory is only observable on the binary.",
-     "Lean 4 theorem (state equality after refresh) + regenerated facts + in-process and real-binary refresh histories")
+     "status recomputed, call order). At RECORD level, with the model of the real loaders (Model/Load.lean): Tr.Load.C15_refresh_all_record_level - the update calls of `names=all`, run in handler order on "
+     "the files that encode a dataset, leave EXACTLY the tables of a fresh start on those files, for ANY previous content of the memory; C15_refresh_schedules_record_level - the same for `names=schedules` "
+     "when the other files are unchanged. Tie: check/loader_corr.py refresh leg (real TransitData::update* on a loaded TransitData vs the Lean updateNames vs a fresh TransitData, tables compared line by "
+     "line), in-process refresh histories (harness vs model vs fresh TransitData) and the real ASan+UBSan binary refreshed over HTTP vs a freshly started one vs the Lean calculation model. Use of freed "
+     "memory is only observable on the binary.",
+     "Lean 4 theorems (state equality after refresh; record-level refresh = fresh load) + regenerated facts + record-level, in-process and real-binary refresh histories")
 _reg("C16", "PROOF (loaders modelled at record level, round trip proved; bytes trusted) + differential runs: Model/Load.lean transcribes the seven cache fetchers and loadAllData over the RECORDS of a "
      "cache directory, Model/Encode.lean is the record-level `encode` that cachegen implements. Tr.Load.C16_roundtrip - for every dataset the schema can encode (ids in range, aligned arrays, 2 <= stop times <= "
      "path stops, no backward hop, no negative footpath) loadAll (encode ds) is EXACTLY: stops with footpath vectors and reverse vectors in the loader's creation order, lines with agency and mode, paths with "
